@@ -91,8 +91,40 @@ pub fn pairs40<F: MonF>(cx: &mut Cx, idx: u64, seed: u64) {
     cx.rep.see("pairs40_length_pairs", mix(&[cx.prec.id(), la as u64, lb as u64]));
     if let Some(mut pr) = build_pair(cx, &mut rng, la, lb, pa, pb, mode) {
         make_prefix_pair(cx, &mut pr, idx);
+        zero_pad(&mut pr, idx);
         let want = oracle::conv(&pr.a, &pr.b);
         mult_both_orders::<F>(cx, &pr, &want);
+    }
+}
+
+/// every eleventh case: one operand keeps its length but only a leading part of it is non-zero (zero-padded to a longer
+/// stored length, as callers do who allocate to a power of two), or only a trailing part; magnitudes are unchanged or
+/// smaller, so the pair stays inside the envelope
+fn zero_pad(pr: &mut Pair, idx: u64) {
+    if idx % 11 != 5 {
+        return;
+    }
+    let which_a = idx % 2 == 0;
+    let v = if which_a { &mut pr.a } else { &mut pr.b };
+    let n = v.len();
+    if n < 4 {
+        return;
+    }
+    let keep = match (idx / 11) % 4 {
+        0 => n / 4,
+        1 => n / 2 - 1,
+        2 => n / 3 + 1,
+        _ => 1,
+    }
+    .max(1);
+    if (idx / 44) % 3 == 0 {
+        for x in v[..n - keep].iter_mut() {
+            *x = 0;
+        }
+    } else {
+        for x in v[keep..].iter_mut() {
+            *x = 0;
+        }
     }
 }
 
@@ -163,7 +195,8 @@ pub fn edges<F: MonF>(cx: &mut Cx, idx: u64, seed: u64) {
         let mode = *rng.pick(&[MagMode::AtMax, MagMode::AtMax, MagMode::Half, MagMode::Asym, MagMode::Rand]);
         (pat(&mut rng), pat(&mut rng), mode)
     };
-    if let Some(pr) = build_pair(cx, &mut rng, la, lb, pa, pb, mode) {
+    if let Some(mut pr) = build_pair(cx, &mut rng, la, lb, pa, pb, mode) {
+        zero_pad(&mut pr, idx);
         cx.rep.see_str("edge_k_judged", &format!("{}:{}", cx.prec.name(), k));
         let want = oracle::conv(&pr.a, &pr.b);
         mult_both_orders::<F>(cx, &pr, &want);
@@ -193,6 +226,7 @@ pub fn pattern<F: MonF>(cx: &mut Cx, idx: u64, seed: u64) {
         }
         if let Some(mut pr) = build_pair(cx, &mut rng, la, lb, pa, pb, mode) {
             make_prefix_pair(cx, &mut pr, idx / 16);
+            zero_pad(&mut pr, idx / 16);
             let want = oracle::conv(&pr.a, &pr.b);
             mult_both_orders::<F>(cx, &pr, &want);
         }
